@@ -1727,17 +1727,24 @@ where
             // process auto applying TopicAlias if the option is enabled
             if self.auto_map_topic_alias_send {
                 if let Some(ref mut topic_alias_send) = self.topic_alias_send {
+                    let limit = self.maximum_packet_size_send as usize;
                     if let Some(found_ta) = topic_alias_send.find_by_topic(packet.topic_name()) {
                         trace!(
                             "topic alias: {} - {} is found.",
                             packet.topic_name(),
                             found_ta
                         );
-                        packet = packet.remove_topic_add_topic_alias(found_ta);
+                        let mapped = packet.clone().remove_topic_add_topic_alias(found_ta);
+                        if mapped.size() <= limit {
+                            packet = mapped;
+                        }
                     } else {
                         let lru_ta = topic_alias_send.get_lru_alias();
-                        topic_alias_send.insert_or_update(packet.topic_name(), lru_ta);
-                        packet = packet.add_topic_alias(lru_ta);
+                        let mapped = packet.clone().add_topic_alias(lru_ta);
+                        if mapped.size() <= limit {
+                            topic_alias_send.insert_or_update(packet.topic_name(), lru_ta);
+                            packet = mapped;
+                        }
                     }
                 }
             } else if self.auto_replace_topic_alias_send {
@@ -1748,7 +1755,10 @@ where
                             packet.topic_name(),
                             found_ta
                         );
-                        packet = packet.remove_topic_add_topic_alias(found_ta);
+                        let mapped = packet.clone().remove_topic_add_topic_alias(found_ta);
+                        if mapped.size() <= self.maximum_packet_size_send as usize {
+                            packet = mapped;
+                        }
                     }
                 }
             }
